@@ -5,9 +5,11 @@ import (
 
 	"github.com/glebziz/fs_db"
 	"github.com/glebziz/fs_db/internal/model"
+	"github.com/glebziz/fs_db/internal/verifhook"
 )
 
 func (r *Repo) Delete(_ context.Context, id string) (model.Transaction, error) {
+	verifhook.At("reg.delete")
 	tx, ok := r.storage.Load(id)
 	if !ok {
 		return model.Transaction{}, fs_db.ErrTxNotFound
